@@ -540,11 +540,30 @@ def l_insert(ex, rn, recv, args, s, sink, node):
     return [(s, ty.none_val())]
 
 
+def _search_position(ex, seq, x):
+    """The position list.index/list.remove find: the sequence theory's indexof, or (contract option list_search="positional") a plain
+    integer >= -1 that the first-occurrence facts below determine uniquely -- no sequence-theory search term in the VC."""
+    if getattr(ex.cur_contract, "list_search", "indexof") == "positional":
+        return z3.Const("pos!%d" % ex._fresh(), z3.IntSort())
+    return z3.IndexOf(seq, z3.Unit(x), 0)
+
+
+def _first_occurrence_facts(ex, s, seq, x, r):
+    """What indexof(seq, [x], 0) == r means position by position (the sequence solvers do not derive it):
+    r >= 0: r is a position holding x and no earlier position does; r < 0: no position holds x."""
+    k = z3.Const("k!fo%d" % ex._fresh(), z3.IntSort())
+    s.assume(r >= -1)
+    s.assume(z3.Implies(r >= 0, z3.And(r < z3.Length(seq), seq[r] == x)))
+    s.assume(z3.ForAll([k], z3.Implies(z3.And(0 <= k, k < z3.Length(seq), z3.Or(r < 0, k < r)), seq[k] != x)))
+
+
 def l_index(ex, rn, recv, args, s, sink, node):
     if recv.e is None:
         ex.raise_(s, "ValueError", sink, _origin(node))
         return []
-    r = z3.IndexOf(recv.e, z3.Unit(ops.coerce(args[0], recv.t.elem).e), 0)
+    x = ops.coerce(args[0], recv.t.elem).e
+    r = _search_position(ex, recv.e, x)
+    _first_occurrence_facts(ex, s, recv.e, x, r)
     return ex.cases(s, [(r >= 0, "val", SV(ty.Int, r)), (r < 0, "exc", "ValueError")], sink, _origin(node))
 
 
@@ -552,9 +571,20 @@ def l_remove(ex, rn, recv, args, s, sink, node):
     if recv.e is None:
         ex.raise_(s, "ValueError", sink, _origin(node))
         return []
-    r = z3.IndexOf(recv.e, z3.Unit(ops.coerce(args[0], recv.t.elem).e), 0)
+    x = ops.coerce(args[0], recv.t.elem).e
+    r = _search_position(ex, recv.e, x)
     n = z3.Length(recv.e)
-    new = SV(recv.t, z3.Concat(z3.SubSeq(recv.e, 0, r), z3.SubSeq(recv.e, r + 1, n - r - 1)))
+    _first_occurrence_facts(ex, s, recv.e, x, r)
+    if getattr(ex.cur_contract, "list_search", "indexof") == "positional":
+        # the list after the removal as a sequence of its own, described position by position (no extract/concat arithmetic in the VC)
+        new = ty.fresh(recv.t, "removed")
+        k = z3.Const("k!rm%d" % ex._fresh(), z3.IntSort())
+        s.assume(z3.Implies(r >= 0, z3.Length(new.e) == n - 1))
+        s.assume(z3.ForAll([k], z3.Implies(z3.And(r >= 0, 0 <= k, k < r), new.e[k] == recv.e[k])))
+        s.assume(z3.ForAll([k], z3.Implies(z3.And(r >= 0, r <= k, k < n - 1), new.e[k] == recv.e[k + 1])))
+        s.assume(z3.ForAll([k], z3.Implies(z3.And(r >= 0, r < k, k < n), new.e[k - 1] == recv.e[k])))
+    else:
+        new = SV(recv.t, z3.Concat(z3.SubSeq(recv.e, 0, r), z3.SubSeq(recv.e, r + 1, n - r - 1)))
     out = []
     for s2, v in ex.cases(s, [(r >= 0, "val", ty.none_val()), (r < 0, "exc", "ValueError")], sink, _origin(node)):
         ex.store_loc(s2, rn, new)
